@@ -22,6 +22,17 @@ NOTES = ("Technique family: machine-checked proof in Lean 4. Every claimed prope
          "hand-written model in lean/Rml/Model, tied to /repo by the correspondence run of tools/check.py. See DESIGN.md.")
 
 PROPS = {
+    "C04": dict(
+        lean=["Rml.Props.C04"], families=["amf"],
+        level_text="Theorem C04_roundtrip: for EVERY value sequence (unbounded size, any nesting the encoder accepts, all 2^64 number patterns, any UTF-8, any enumeration order of every map) the encoder model's output is decoded by the decoder model, consuming all bytes, to exactly that sequence; C04_errors characterises exactly when encoding is refused (string/name > 65535 bytes, empty name, nesting > 128). Proved via the specification relation (encoder ⊆ spec, decoder inverts spec) by mutual structural induction. The model is tied to amf0/src by the `amf` correspondence family on every run.",
+        level_note="Trusted: Lean kernel + standard axioms; Val.WF (valid UTF-8, distinct names per map, <2^32 elements per Vec) are the Rust type guarantees and are hypotheses; HashMap = association list (model), encoder correspondence is modulo map enumeration order (the model re-encodes in the wire order the implementation chose and must reproduce its bytes exactly); correspondence strength is bounded by the generator (see evidence input_distribution). Depends on fix commits F7 (names), F8 (depth), recorded in known_findings.json.",
+        assumptions=["Vec lengths < 2^32 (cannot be reached in memory)"],
+    ),
+    "C12": dict(
+        lean=["Rml.Props.C12"], families=["amf"],
+        level_text="The AMF0 document is formalised as the inductive relation Spec.Amf0.Encodes (any property order, ECMA arrays with any count, any non-zero true byte). Theorems: C12_encode_spec (every encoder output is in the relation), C12_decode_spec (EVERY encoding in the relation, within the nesting limit, decodes to the value it denotes, consuming everything), C12_unsupported (all 247 other markers are errors at any position). Truncation clause: checked by the oracle at every cut point and by model/implementation correspondence on cuts and mutations; its theorem is not proved yet (see DESIGN.md).",
+        level_note="Trusted: adequacy of the 40-line relation w.r.t. the AMF0 document (human-read); Lean kernel; model tied to code by the `amf` family incl. an independent Rust reference codec (harness/src/refcodec.rs) used as oracle in both directions, all 256 markers, every truncation point. Depends on fix F9 (boolean non-zero = true).",
+    ),
     "C20": dict(
         lean=["Rml.Props.C20"],
         families=["time"],
